@@ -12,7 +12,7 @@ from __future__ import annotations
 import ast
 from fractions import Fraction
 
-from .core import AnalysisError, loc, norm_src, walk_no_nested, dotted, str_const
+from .core import AnalysisError, loc, norm_src, walk_no_nested, dotted, str_const, Inliner
 from .symx import Interp, Obj, Path, PList, PDict, Opaque, Unsupported, explore, Abort, Cmp
 from .rat import Rat, V, K
 from .lpdb import build_all, OPT
@@ -152,14 +152,28 @@ def chain(index, rep, db):
                       loc=loc(INT, fn))
     # 5. Extractor gets the optimiser's constants and variables of the same solve
     io = index.func(RUN, "ScenarioRunner.interpret_optimizer_results")
-    srcs = {norm_src(s.targets[0]): norm_src(s.value) for s in io.body if isinstance(s, ast.Assign)}
-    rep.check(srcs.get("extractor") == "Extractor(consts_for_optimizer)" and
-              srcs.get("extracted_results") == "extractor.extract_results(model, variables, time_consts)" and
-              srcs.get("interpreted_results") == "interpreter.interpret_results(extracted_results, title)", rule, "wiring:same-solve",
-              "results are not extracted from the (model, variables, time_consts, constants) of the solve being reported", loc=loc(RUN, io))
+    inl = Inliner(io)
+    P = [a.arg for a in io.args.args]
+    rets = [r for r in io.body if isinstance(r, ast.Return)]
+    got = inl.src(rets[-1].value) if rets and rets[-1].value is not None else ""
+    # returned = interpreter.interpret_results(Extractor(consts).extract_results(model, variables, time_consts), title), with this function's own parameters
+    want = f"{P[5]}.interpret_results(Extractor({P[1]}).extract_results({P[2]}, {P[3]}, {P[4]}), {P[-1]})" if len(P) >= 9 else None
+    rep.check(want is not None and got == want, rule, "wiring:same-solve",
+              "results are not extracted from the (model, variables, time_consts, constants) of the solve being reported", loc=loc(RUN, io),
+              detail=f"got {got}")
     ro = index.func(RUN, "ScenarioRunner.run_optimizer")
     call = [c for c in walk_no_nested(ro) if isinstance(c, ast.Call) and dotted(c.func) == "self.interpret_optimizer_results"]
-    ok = len(call) == 1 and [norm_src(a) for a in call[0].args[:4]] == ["consts_for_optimizer", "model", "variables", "time_consts"]
+    ok = len(call) == 1 and len(call[0].args) >= 4
+    if ok:
+        inl_ro = Inliner(ro)
+        RP = [a.arg for a in ro.args.args]
+        a4 = [inl_ro.alternatives(a) or ["?"] for a in call[0].args[:4]]
+        # (constants, model, variables, monthly constants): constants and monthly constants are run_optimizer's own first two parameters,
+        # model and variables are slots 0 and 1 of an optimiser call made with those same parameters (on every branch)
+        ok = a4[0] == [RP[1]] and a4[3] == [RP[2]] and len(a4[1]) == len(a4[2]) >= 1
+        for m_, v_ in zip(a4[1], a4[2]):
+            ok = ok and m_.endswith("[0]") and v_.endswith("[1]") and m_[:-3] == v_[:-3] and m_.startswith(f"Optimizer({RP[1]}, {RP[2]}).optimize_") \
+                and (f".optimize_to_humans({RP[1]}, {RP[2]})" in m_ or f".optimize_feed_to_animals({RP[1]}, {RP[2]}, " in m_)
     rep.check(ok, rule, "wiring:run_optimizer", "run_optimizer does not hand its own model/variables/constants to the interpreter", loc=loc(RUN, ro))
     rep.require_min(rule, 30)
 
@@ -271,23 +285,38 @@ def coef(index, rep, db):
     loops = [s for s in tml.body if isinstance(s, ast.For)]
     ok = len(loops) == 1 and norm_src(loops[0].iter) in ("range(0, self.constants['NMONTHS'])", "range(self.constants['NMONTHS'])")
     if ok:
+        pv, pc = [a.arg for a in tml.args.args if a.arg != "self"][:2]
+
         def run5(it5):
-            env = {"variables": Opaque("variables"), "conversion": Rat.atom(("conv",)), loops[0].target.id: Rat.atom("M"),
-                   "variable_output": PList([]), "SHOW_OUTPUT_FLAG": False}
+            env = {pv: Opaque("variables"), pc: Rat.atom(("conv",)), loops[0].target.id: Rat.atom("M")}
+            for st in tml.body[: tml.body.index(loops[0])]:
+                if isinstance(st, ast.Assign) and isinstance(st.targets[0], ast.Name):
+                    if isinstance(st.value, ast.List) and not st.value.elts:
+                        env[st.targets[0].id] = PList([])
+                    elif isinstance(st.value, ast.Constant):
+                        env[st.targets[0].id] = st.value.value if isinstance(st.value.value, bool) else it5.eval(st.value, env)
             it5.exec_block(loops[0].body, env)
             return env
 
+        out_name = None
         try:
             res5 = [env for _, _, env, _ in explore(run5, month_classes=False) if not isinstance(env, Abort)]
             ok = bool(res5)
             for env in res5:
-                item = env["variable_output"].items
+                lists = [(k, v) for k, v in env.items() if isinstance(v, PList) and v.items]
+                ok = ok and len(lists) == 1
+                if not ok:
+                    break
+                out_name, lst = lists[0]
+                item = lst.items
                 ok = ok and len(item) == 1 and isinstance(item[0], Rat) and \
                     item[0] == Rat.atom(("varValue", "variables[M]")) * Rat.atom(("conv",))
         except Unsupported:
             ok = False
-    rets = [norm_src(r.value) for r in tml.body if isinstance(r, ast.Return)]
-    rep.check(ok and rets == ["np.array(variable_output)"], rule, "to_monthly_list:value[m] = variables[m].varValue x conversion",
+    rets = [norm_src(r.value) for r in walk_no_nested(tml) if isinstance(r, ast.Return)]
+    rets = sorted(rets, key=lambda r: r.replace(" ", "").startswith("np.array([0]*len("), reverse=True)
+    rep.check(ok and out_name is not None and rets and rets[-1] in (f"np.array({out_name})", f"np.asarray({out_name})", out_name) and all(
+        r == rets[-1] or r.replace(" ", "").startswith("np.array([0]*len(") for r in rets), rule, "to_monthly_list:value[m] = variables[m].varValue x conversion",
               "to_monthly_list does not return variables[m].varValue x conversion for every month m", loc=loc(EXT, tml))
     # billions fed -> percent fed is x 100*KCALS_MONTHLY/BKN  (C10 table identity), with the optimiser's BKN/KCALS_MONTHLY
     from .c10 import build_conversions, tables
